@@ -530,6 +530,11 @@ pub struct Hist {
     /// the last distributed compaction committed leftover tasks in a second `commit_compaction`
     /// call and that call was accepted
     pub second_commit_round_accepted: bool,
+    /// the concurrent delete of the last distributed compaction was really committed
+    pub interleaved_delete_done: bool,
+    /// the table was created with stable row ids but a later manifest no longer carries the
+    /// feature flag: (op kind that committed that manifest, table had no fragments before it)
+    pub stable_flag_lost: Option<(&'static str, bool)>,
 }
 
 /// Extra column pool for history tables: everything the ColTy pool has. Lists with null items are
@@ -651,6 +656,8 @@ impl Hist {
             indexed: None,
             deleted_ids: vec![],
             second_commit_round_accepted: false,
+            interleaved_delete_done: false,
+            stable_flag_lost: None,
         })
     }
 
@@ -856,6 +863,8 @@ impl Hist {
     /// Execute `op` on the real table and, if it was applied, on the model.
     pub async fn apply(&mut self, rng: &mut Rng, op: &Op) -> Outcome {
         let before_version = self.ds.version().version;
+        let fragments_before = self.ds.count_fragments();
+        let flag_before = self.ds.manifest().uses_stable_row_ids();
         let res: Result<(), Fail> = match op {
             Op::Append { batches, max_rows_per_file } => {
                 let mut params = self.actor.write_params(WriteMode::Append);
@@ -977,6 +986,13 @@ impl Hist {
         };
         let _ = rng;
         let after_version = self.ds.version().version;
+        if self.cfg.stable && flag_before && !self.ds.manifest().uses_stable_row_ids() && self.stable_flag_lost.is_none() {
+            self.stable_flag_lost = Some((op.kind(), fragments_before == 0));
+            self.log.push(format!(
+                "   !! manifest v{after_version} written by {} no longer has the stable-row-id feature flag (fragments before: {fragments_before})",
+                op.kind()
+            ));
+        }
         match res {
             Err(f) => {
                 self.log.push(format!("v{before_version}: {} -> {}", op.brief(), f.brief()));
@@ -1008,6 +1024,7 @@ impl Hist {
 
     async fn run_compaction(&mut self, c: &CompactSpec) -> Result<(), Fail> {
         self.second_commit_round_accepted = false;
+        self.interleaved_delete_done = false;
         let r = self.run_compaction_inner(c).await;
         if c.interleaved_delete.is_some() {
             // another handle committed in between: continue from the latest version
@@ -1063,6 +1080,7 @@ impl Hist {
                         Ok(d2) => {
                             let v = d2.version().version;
                             let n = self.apply_model(&Op::Delete(p.clone()), v);
+                            self.interleaved_delete_done = true;
                             self.log.push(format!("   concurrent delete where {} -> v{v} [{n} rows]", short(&sql)));
                         }
                         Err(e) => self.log.push(format!("   concurrent delete failed: {}", short(&e.brief()))),
